@@ -1,4 +1,5 @@
 import FV.Proofs.NetlistRT
+import FV.Proofs.StogInst
 /-
   C04 — netlist write → read round trip preserves the design; writing is repeatable.
 
@@ -7,10 +8,15 @@ import FV.Proofs.NetlistRT
   fixes/C04_writer_regions_flip.diff (per-region areas written as a dictionary, `flip` written).  The YAML text layer
   (ruamel dump / load) is outside these theorems; the harness pins `load(dump(tree)) == tree` on every sample.
 
-  Hypotheses on the STOG parameter (`create_stog`, the subject of C06; both are tested on every sample through the
-  roles of the re-read rectangles):
+  The STOG step is a parameter `stog` of the model.  The general theorems (`roundtrip`, `roundtrip_eq`, `dump_stable`)
+  take two hypotheses about it:
     `StogPerm stog`    it permutes the rectangles of a module and only changes their roles;
     `StogStable stog`  on its own output (roles forgotten, as after a write and a read) it returns that output.
+  The HEADLINE theorems (`roundtrip_createStog`, `roundtrip_eq_createStog`, `dump_stable_createStog`) are stated for
+  `stogC06 ε εA` — the C06 model of `create_stog` (`FV/Model/Stog.lean`, repaired code) run on the tagged rectangles,
+  `ε` / `εA` = the distance / area tolerances in force — for which both hypotheses are PROVED
+  (`FV/Proofs/StogInst.lean`: `stogPerm_stogC06`, `stogStable_stogC06`; `stogC06_toRect` shows it is `Stog.createStog`
+  on the plain rectangles).  They carry no assumption about `create_stog`; the driver executes the same `stogC06`.
   Scalars: any linearly ordered field (centres and areas of hard modules are recomputed from the rectangles in the new
   order: equal in exact arithmetic; in floating point the harness allows 1e-9 there).
 -/
@@ -121,6 +127,38 @@ theorem parse_names_nodup {t : YVal α} {n : Netlist α} (h : parseNetlist stog 
 theorem module_reread {m : NL.Mod α} (h : FinOK m) :
     parseModule (YVal.str m.name, dumpModule m) = .ok (reparse m) := parseModule_dump m h
 
+
+/-! ### headline statements: the STOG step is the C06 model of `create_stog` (no assumption left about it) -/
+
+/-- the STOG step used below IS the C06 model: on the plain rectangles `stogC06` leaves behind exactly the list
+    `Stog.createStog` leaves behind. -/
+theorem stog_is_createStog (ε εA : α) (rs : List (NRect α)) (hne : rs ≠ []) :
+    ∃ flag, Stog.createStog ε εA (rs.map NRect.toRect) = some (flag, (stogC06 ε εA rs).map NRect.toRect) :=
+  stogC06_toRect ε εA rs hne
+
+/-- `create_stog` run again on its own output (roles forgotten) changes nothing: same order, same roles. -/
+theorem createStog_stable (ε εA : α) (rs : List (NRect α)) :
+    stogC06 ε εA ((stogC06 ε εA rs).map NRect.resetLoc) = stogC06 ε εA rs :=
+  stogStable_stogC06 ε εA rs
+
+/-- ROUND TRIP with the real `create_stog`: the document written for a loaded netlist is accepted and denotes the same
+    design (modules in order: name, kind, per-region areas, centre, aspect bounds, rectangles with regions and roles;
+    nets: members and weight). -/
+theorem roundtrip_createStog (ε εA : α) {t : YVal α} {n : Netlist α}
+    (h : parseNetlist (stogC06 ε εA) εA t = .ok n) :
+    ∃ n', parseNetlist (stogC06 ε εA) εA (dumpNetlist n) = .ok n' ∧ Same n' n :=
+  roundtrip (stogPerm_stogC06 ε εA) (stogStable_stogC06 ε εA) h
+
+theorem roundtrip_eq_createStog (ε εA : α) {t : YVal α} {n : Netlist α}
+    (h : parseNetlist (stogC06 ε εA) εA t = .ok n) : parseNetlist (stogC06 ε εA) εA (dumpNetlist n) = .ok n :=
+  roundtrip_eq (stogPerm_stogC06 ε εA) (stogStable_stogC06 ε εA) h
+
+/-- WRITING IS REPEATABLE with the real `create_stog`. -/
+theorem dump_stable_createStog (ε εA : α) {t : YVal α} {n n' : Netlist α}
+    (h : parseNetlist (stogC06 ε εA) εA t = .ok n)
+    (h' : parseNetlist (stogC06 ε εA) εA (dumpNetlist n) = .ok n') : dumpNetlist n' = dumpNetlist n :=
+  dump_stable (stogPerm_stogC06 ε εA) (stogStable_stogC06 ε εA) h h'
+
 /-! ### non-vacuity: the hypotheses are satisfiable and concrete documents load -/
 
 /-- a STOG step that calls every rectangle a trunk meets both hypotheses (so they are consistent). -/
@@ -150,6 +188,25 @@ def sampleDoc : YVal Rat :=
 example : (match parseNetlist trivialStog 0 sampleDoc with
     | .ok n => n.modules.length == 3 && n.nets.length == 1 &&
         (n.modules.map (·.flip)) == [false, true, false] && (n.modules.map (·.areaRegions.length)) == [2, 1, 1]
+    | .error _ => false) = true := by decide +kernel
+
+/-- with the real `create_stog` (tolerances 1/1024, 1/32): the hard module is given branch first; after loading the
+    trunk (4×2) is in front and the branch is its NORTH neighbour; the round trip returns the same netlist. -/
+def sampleDoc2 : YVal Rat :=
+  .map [(.str "Modules", .map [
+          (.str "H", .map [(.str "hard", .bool true), (.str "flip", .bool true),
+                           (.str "rectangles", .seq [.seq [.int 1, .int 4, .int 2, .int 2],
+                                                     .seq [.int 2, .int 2, .int 4, .int 2]])]),
+          (.str "A", .map [(.str "area", .map [(.str "dsp", .float 2)])])]),
+        (.str "Nets", .seq [.seq [.str "A", .str "H"]])]
+
+example : (match parseNetlist (stogC06 (1 / 1024 : Rat) (1 / 32)) (1 / 32) sampleDoc2 with
+    | .ok n => (n.modules.map fun m => m.rects.map fun r => (r.w, r.loc)) ==
+                  [[(Num.i 4, Loc.trunk), (Num.i 2, Loc.north)], []] &&
+               (match parseNetlist (stogC06 (1 / 1024 : Rat) (1 / 32)) (1 / 32) (dumpNetlist n) with
+                | .ok n' => (n'.modules.map fun m => m.rects.map fun r => (r.w, r.loc)) ==
+                              [[(Num.i 4, Loc.trunk), (Num.i 2, Loc.north)], []]
+                | .error _ => false)
     | .error _ => false) = true := by decide +kernel
 
 end FV.C04
